@@ -5,10 +5,10 @@ package main
 // through a scripted reader. Every operation is one trace event.
 
 import (
-	"sort"
 	"encoding/binary"
 	stderrors "errors"
 	"io"
+	"sort"
 
 	"github.com/golang/protobuf/proto"
 	"github.com/golang/protobuf/ptypes/wrappers"
